@@ -1,7 +1,7 @@
 """C06 motion / configuration helpers of both layers emit exactly the documented EBB command text."""
 from common import cz, cb, clist, ctext, copt
 from props import ebb3sim as S
-import inspect
+import inspect, serial
 from plotink import ebb_motion, ebb3_motion, ebb3_serial
 
 ID = "C06"
@@ -90,6 +90,17 @@ def generate(rng, tier):
     for c in cases:
         if c["h"][0].startswith("L_") and not c.get("noport") and c["h"][0] not in ("L_ServoV",) and rng.random() < 0.3:
             c["typed_twin"] = rng.choice(["float", "float", "bool"]); c["family"] += "/after-equal-valued-%s-call" % c["typed_twin"]
+    # function layer: the text written does not depend on what the board answers either (the functions report nothing back): long pauses
+    # whose k-th chunk is answered by an error line, by silence, by the name-style acknowledgement of a board left in the newer reply
+    # syntax, or by an I/O fault; and a sample of the other helpers with such an answer to their (first) command
+    for nms in ([1499, 1500, 1501, 2250, 4000, 751, 3001] if tier == "quick" else [751, 1499, 1500, 1501, 2250, 3001, 4000] + [rng.randint(751, 9000) for _ in range(60)]):
+        chunks = -(-nms // 750)
+        for kind in ("errline", "silence", "newsyntax", "fault"):
+            cases.append({"h": ("L_Pause", nms), "badack": (rng.randrange(chunks - 1) if chunks > 1 else 0, kind), "family": "L_Pause/unacknowledged-chunk/" + kind})
+    for c in list(cases):
+        if c["h"][0].startswith("L_") and c["h"][0] not in ("L_ServoV", "L_Servo") and not c.get("noport") and "badack" not in c and rng.random() < 0.08:
+            kind = rng.choice(["errline", "silence", "newsyntax", "fault"])
+            cases.append(dict(c, badack=(0, kind), family=c["h"][0] + "/unacknowledged/" + kind))
     for c in cases:
         if c.get("noport"): continue
         r = rng.random()
@@ -104,17 +115,26 @@ class AckPort:
         self.qe = qe                                 # the motor state the board reports to QE
         self.version = version                       # what a legacy board answers to V
         self.delay, self.blank = delay, blank        # reads that time out (b'') / a blank line before each acknowledgement
+        self.badack = None                           # (k, kind): the k-th command is not acknowledged with OK
     def write(self, data):
         self.writes.append(data)
         t = data.decode("ascii").strip()
         nm = t[0] if (len(t) == 1 or t[1] == ",") else t[:2]
         self.queue += [b""] * self.delay + ([b"\r\n"] if self.blank else [])
+        if self.badack is not None and len(self.writes) - 1 == self.badack[0]:
+            kind = self.badack[1]
+            if kind == "errline": self.queue.append(b"!8 Err: Unknown command\r\n")
+            elif kind == "newsyntax": self.queue.append(nm.encode() + b"\r\n")
+            elif kind == "fault": self.queue.append(serial.SerialException("device reports readiness to read but returned no data"))
+            return len(data)                       # "silence": nothing is queued, every read times out
         if self.legacy and nm.upper() == "V" and self.version: self.queue.append(("EBBv13_and_above EB Firmware Version %s\r\n" % self.version).encode())
         elif self.legacy: self.queue.append(b"OK\r\n")
         else: self.queue.append((nm + ("," + self.qe if nm == "QE" else "")).encode() + b"\r\n")
         return len(data)
     def readline(self):
-        return self.queue.pop(0) if self.queue else b""
+        x = self.queue.pop(0) if self.queue else b""
+        if isinstance(x, Exception): raise x
+        return x
     def close(self): pass
     def reset_input_buffer(self): pass
 
@@ -124,6 +144,7 @@ def run_impl(c):
     if c.get("noport"):
         return _run_noport(k, a, legacy)
     port = AckPort(legacy, c.get("delay", 0), c.get("blank", False), "%d.%d.%d" % tuple(a[:3]) if k == "L_ServoV" else None, "%d,%d" % (a[2], a[3]) if k == "E_MotorsOnQ" else "0,0")
+    port.badack = c.get("badack")
     if legacy and c.get("typed_twin") and not c.get("_twin_running"):
         # the same request was made a moment ago with whole-valued floats (or True / False) in place of the integers, on another port:
         # what was built for that call must not be reused for this one (120 == 120.0 and 0 == False, but their texts differ)
